@@ -25,6 +25,8 @@ MOLS = {
     "H2O/6-31g": "O 0 0 0.1173; H 0 0.7572 -0.4692; H 0 -0.7572 -0.4692",
     "LiH/6-31g": "Li 0 0 0; H 0 0 1.6",
     "H2/cc-pvdz": "H 0 0 0; H 0 0 0.74",
+    # generally contracted shells (bas_nctr > 1): AO offsets are sum (2l+1) * nctr, not sum (2l+1)
+    "LiH/cc-pvdz": "Li 0 0 0; H 0 0 1.6",
 }
 
 
@@ -421,7 +423,7 @@ def derivative_records(chk, code, insts, orc, push):
 def chunked_records(chk, code, push):
     from pyscf import gto
     # molecules with multi-function (p) shells exercise the AO -> shell bookkeeping of the chunked routine
-    names = ["H2", "H4", "LiH", "H2O", "HOH"] if chk.tier == "quick" else list(MOLS)
+    names = ["H2", "H4", "LiH", "H2O", "HOH", "LiH/cc-pvdz"] if chk.tier == "quick" else list(MOLS)
     for name in names:
         mol = gto.M(atom=MOLS[name], basis=name.split("/")[1] if "/" in name else "sto-3g", verbose=0)
         nao = mol.nao_nr()
